@@ -49,6 +49,24 @@ def run(ctx):
             extra.append({"src": src, "texts": ["a", "ab", "7", "12", "-3", "99999999999999999999", "a1", "", "x-", "0"]})
             if boolish:
                 extra.append({"src": "set p to pattern %s begin return %s end\nfind all p" % (body, e), "texts": ["a", "ab", "7", "", "b1"]})
+    # every name the run-time environments define (and an undefined one) under every operator against every operand type, in a transform and in a predicate:
+    # what Compile accepts must run (the checker types names it does not know as strings; the two environments define different names)
+    names = ["match", "matchLength", "matchNumber", "nosuchname"]
+    others = ["1", "0", "'2'", "'x'", "''", "true", "match", "matchLength", "matchNumber", "head match"]
+    ops = ["+", "-", "*", "/", "%", "==", "!=", "<", ">", "<=", ">=", "and", "or"]
+    combos = [(n, op, o) for n in names for op in ops for o in others]
+    if quick:
+        combos = [c for c in combos if c[0] == "matchNumber" or c[2] == "matchNumber"] + rng.sample(combos, 120)
+    for n, op, o in combos:
+        for lhs, rhs in ((n, o), (o, n)):
+            e = "%s %s %s" % (lhs, op, rhs)
+            extra.append({"src": "set f to transform return '' + (%s) end\nreplace all at least 1 digit with f" % e, "texts": ["7", "12 0", "x"]})
+            extra.append({"src": "set p to pattern at least 1 digit begin return (%s) == 0 end\nfind all p" % e, "texts": ["7", "12 0", "x"]})
+            extra.append({"src": "set p to pattern at least 1 digit begin return '' == (%s) end\nfind all p" % e, "texts": ["7", "x"]})
+    for n in names:
+        for u in ("head", "tail", "not"):
+            extra.append({"src": "set f to transform return '' + (%s %s) end\nreplace all at least 1 digit with f" % (u, n), "texts": ["7", "12 0"]})
+            extra.append({"src": "set p to pattern at least 1 digit begin return '' == (%s %s) end\nfind all p" % (u, n), "texts": ["7", "12 0"]})
     extra.append({"src": "set f to transform if match == 'a' then set x to true else set x to 'q' end return x - 1 end\nreplace all any with f",
                   "texts": ["a", "b"]})
     extra.append({"src": "set f to transform return 1 / 0 end\nreplace all 'a' with f", "texts": ["a"]})
